@@ -70,9 +70,13 @@ func run(c Case) (res vh.Result) {
 	var mu sync.Mutex
 	var gate *simworld.Gate
 	silentLaunch := false
+	slowLaunch := false // launched tasks take 2.5 s to report TASK_RUNNING
 	w.Master.OnLaunch = func(t *simworld.SimTask) simworld.LaunchPlan {
 		mu.Lock()
 		defer mu.Unlock()
+		if slowLaunch {
+			return simworld.LaunchPlan{Delay: 2500 * time.Millisecond}
+		}
 		return simworld.LaunchPlan{Silent: silentLaunch}
 	}
 	w.Master.OnCommand = func(t *simworld.SimTask, cmd *simworld.Command) simworld.Reply {
@@ -340,6 +344,39 @@ func run(c Case) (res vh.Result) {
 		defer g.Open()
 	}
 	owned := map[string]string{}
+	var deploying chan error
+	if c.Point == "deploying" {
+		// one more environment is being deployed: its tasks were accepted by the master and have not reported TASK_RUNNING yet
+		// when the stream is dropped; the reconciliation answers say TASK_STAGING for them
+		mu.Lock()
+		slowLaunch = true
+		mu.Unlock()
+		taskMark := len(w.Master.Tasks())
+		deploying = make(chan error, 1)
+		go func() {
+			id, err := create(c.Envs)
+			if err == nil {
+				mu.Lock()
+				envIds = append(envIds, id)
+				mu.Unlock()
+			}
+			deploying <- err
+		}()
+		deadline := time.Now().Add(10 * time.Second)
+		for len(w.Master.Tasks()) < taskMark+c.NTasks && time.Now().Before(deadline) {
+			time.Sleep(5 * time.Millisecond)
+		}
+		if len(w.Master.Tasks()) < taskMark+c.NTasks {
+			res.Inconclusive = "the tasks of the environment being deployed were not launched"
+			return
+		}
+		for _, t := range w.Master.Tasks()[taskMark:] {
+			owned[t.ID] = "(the environment being deployed)"
+		}
+		mu.Lock()
+		slowLaunch = false
+		mu.Unlock()
+	}
 	for _, id := range envIds {
 		ge, err := w.GetEnv(id, false)
 		if err != nil {
@@ -392,7 +429,21 @@ func run(c Case) (res vh.Result) {
 			return fail("request-hangs", "the transition parked across the reconnection did not return")
 		}
 	}
-	for i, id := range envIds {
+	if deploying != nil {
+		select {
+		case err := <-deploying:
+			steps = append(steps, fmt.Sprintf("the deployment that was in progress across the reconnection ended with err=%v", err))
+			if err != nil {
+				return fail("deployment-broken-by-reconnect", "the environment that was being deployed when the master connection was dropped could not be created: %v", err)
+			}
+		case <-time.After(60 * time.Second):
+			return fail("request-hangs", "the creation in progress across the reconnection did not return")
+		}
+	}
+	mu.Lock()
+	envIdsNow := append([]string(nil), envIds...)
+	mu.Unlock()
+	for i, id := range envIdsNow {
 		ge, err := w.GetEnv(id, false)
 		if err != nil {
 			return fail("env-vanished", "environment %s vanished after a reconnection: %v", id, err)
@@ -455,7 +506,7 @@ func gen(t *rapid.T) Case {
 			c.NTasks, c.SlowKillCalls = rapid.IntRange(9, 14).Draw(t, "manyTasks"), true
 		}
 	} else {
-		c.Point = rapid.SampledFrom([]string{"configured", "running", "mid-transition"}).Draw(t, "point")
+		c.Point = rapid.SampledFrom([]string{"configured", "running", "mid-transition", "deploying"}).Draw(t, "point")
 		c.Drops = rapid.IntRange(1, 3).Draw(t, "drops")
 		if vh.Open("KF-C18-reconcile-kills-owned") {
 			c.Action, c.Point = "restart", "deployed"
@@ -471,7 +522,7 @@ func TestFixed(t *testing.T) {
 		vh.Fixed(t, prop, "restart-"+p, Case{NTasks: 2, Envs: 1, Action: "restart", Point: p}, vh.Confirmed(run))
 	}
 	if !vh.Open("KF-C18-reconcile-kills-owned") {
-		for _, p := range []string{"configured", "running", "mid-transition"} {
+		for _, p := range []string{"configured", "running", "mid-transition", "deploying"} {
 			vh.Fixed(t, prop, "reconnect-"+p, Case{NTasks: 2, Envs: 2, Action: "reconnect", Point: p, Drops: 2}, vh.Confirmed(run))
 		}
 		vh.Fixed(t, prop, "reconnect-bare-answers", Case{NTasks: 2, Envs: 2, Action: "reconnect", Point: "configured", Drops: 1, Bare: true}, vh.Confirmed(run))
